@@ -268,6 +268,20 @@ impl Epoch {
         self.weekday_in_time_scale(TimeScale::UTC)
     }
 
+    /// Returns the weekday of the calendar date of this epoch in its own time scale (1900-01-01 was a Monday).
+    ///
+    /// The days added by `next` and `previous` are days of the time scale of the epoch, and the `_at_midnight`
+    /// and `_at_noon` variants snap to the calendar day in that time scale: choosing the number of days from the
+    /// TAI weekday landed on the wrong day whenever the TAI date differs from the date in the time scale of the
+    /// epoch (e.g. in the last 37 seconds of a UTC day).
+    fn weekday_of_calendar_date(&self) -> Weekday {
+        let (centuries, nanoseconds) =
+            (self.duration + self.time_scale.gregorian_epoch_offset()).to_parts();
+        let days = i128::from(centuries) * i128::from(DAYS_PER_CENTURY_I64)
+            + i128::from(nanoseconds / NANOSECONDS_PER_DAY);
+        (days.rem_euclid(Weekday::DAYS_PER_WEEK_I128) as u8).into()
+    }
+
     #[must_use]
     /// Returns the next weekday.
     ///
@@ -285,7 +299,7 @@ impl Epoch {
     /// assert_eq!(epoch.next(Weekday::Saturday), Epoch::from_gregorian_utc_at_midnight(1988, 1, 9));
     /// ```
     pub fn next(&self, weekday: Weekday) -> Self {
-        let delta_days = self.weekday() - weekday;
+        let delta_days = self.weekday_of_calendar_date() - weekday;
         if delta_days == Duration::ZERO {
             *self + 7 * Unit::Day
         } else {
@@ -319,7 +333,7 @@ impl Epoch {
     /// assert_eq!(epoch.previous(Weekday::Saturday), Epoch::from_gregorian_utc_at_midnight(1987, 12, 26));
     /// ```
     pub fn previous(&self, weekday: Weekday) -> Self {
-        let delta_days = weekday - self.weekday();
+        let delta_days = weekday - self.weekday_of_calendar_date();
         if delta_days == Duration::ZERO {
             *self - 7 * Unit::Day
         } else {
